@@ -185,8 +185,9 @@ type c07Case struct {
 	Blank   string
 	Cap     int
 	WithVal bool
-	Cut     int   `json:",omitempty"` // > 0: the block arrives in two calls, the first one ending after Cut bytes (own exact-size buffer)
-	NilMask uint8 `json:",omitempty"` // with WithVal: a caller-written PHBodies whose getters (bit order From, To, Call-ID, CSeq, CLen, Contacts, Expires, PAIs) return nil
+	Tail    string `json:",omitempty"` // what follows the block in the buffer (default "BODY-BYTES")
+	Cut     int    `json:",omitempty"` // > 0: the block arrives in two calls, the first one ending after Cut bytes (own exact-size buffer)
+	NilMask uint8  `json:",omitempty"` // with WithVal: a caller-written PHBodies whose getters (bit order From, To, Call-ID, CSeq, CLen, Contacts, Expires, PAIs) return nil
 }
 
 // maskedBodies is a caller-written PHBodies: it declines (returns nil for) the bodies selected by nilMask, which
@@ -275,7 +276,11 @@ var c07NamedFlag = map[sipsp.HdrT]sipsp.HdrFlags{sipsp.HdrFrom: sipsp.HdrFromF, 
 
 func evalC07(cs *c07Case) (vs []*Violation) {
 	block, exp := buildBlock(cs.Lines, cs.VF, cs.Blank)
-	buf := append(append([]byte(nil), block...), "BODY-BYTES"...)
+	tail := cs.Tail
+	if tail == "" {
+		tail = "BODY-BYTES"
+	}
+	buf := append(append([]byte(nil), block...), tail...)
 	site := "ParseHeaders"
 	add := func(rule, class, detail string) {
 		c := mkCase("C07", site, &Cfg{HdrCap: cs.Cap, ValCap: -1, WithVals: cs.WithVal}, block, nil)
@@ -625,6 +630,24 @@ func checkC07(r *Run) {
 			cc := cs
 			cc.WithVal, cc.NilMask = true, 0xff
 			runCase(c, &cc)
+		}
+	})
+	// what follows the block (the first body bytes) does not matter: blanks, line ends, a colon, header look-alikes,
+	// for every blank-line form and terminator (not LF after a lone-CR blank line: that is a CRLF blank line)
+	parallelFor(r, len(red), func(c *enumCtx, i int) {
+		for _, b := range blanks {
+			if !okBlank(red[i].l, b) {
+				continue
+			}
+			for _, tl := range []string{" body", "\tb", "\r\nx", "\nx", "\rx", ":", "X: y\r\n", "\x00", " ", "\r"} {
+				if b == "\r" && tl[0] == '\n' {
+					continue
+				}
+				for _, cp := range []int{-1, 0} {
+					runCase(c, &c07Case{Lines: []hdrLineSpec{red[i].l}, VF: []valForm{red[i].vf}, Blank: b, Cap: cp, Tail: tl})
+					runCase(c, &c07Case{Lines: []hdrLineSpec{red[i].l, tiny[i%len(tiny)].l}, VF: []valForm{red[i].vf, tiny[i%len(tiny)].vf}, Blank: b, Cap: cp, Tail: tl, WithVal: true, NilMask: 0xff})
+				}
+			}
 		}
 	})
 	// 60-line blocks per terminator
